@@ -22,7 +22,7 @@ def prop(pid, rule, note, extra=None):
       rule="cases = texts (valid IBANs/BICs of every country, single-defect mutants, malformed texts) "
            "x decorated variants (random insertions of each of the \\s code points, ASCII case flips); "
            "non-trivial = distinct (base, variant) pair whose variant differs from the base text "
-           "; plus synthetic BICs with digits in every alphanumeric position, the formatted form compared with the parts joined by single spaces",
+           "; plus synthetic BICs with digits in every alphanumeric position, the formatted form compared with the parts joined by single spaces; texts carrying a word of the source's string literals before / after a valid IBAN or BIC, with explicit case / blank variants",
       note="partial tie: the theorems are about the model's `clean`; that every constructor sees its "
            "argument only through `clean` is validated by the correspondence streams")
 def c10(run):
@@ -64,8 +64,25 @@ def c10(run):
     for w in spaces:
         cases.append(("iban", w + "DE89" + w + w + "370400440532013000" + w))
         cases.append(("bic", "GENO" + w + "DEM1GLS" + w))
-    for kind, base in cases:
-        var = S.decorate(base) if len(base) < 400 else base.replace(" ", "\u2003").swapcase()
+    # texts that carry a word of the source code (whatever the code singles out is written in it) before /
+    # after a valid IBAN or BIC, each with explicit variants: lower, upper, swapped case, a blank after every
+    # character
+    toks = [t for t in S.source_tokens() if t.isalpha() and 2 <= len(t) <= 12]
+    S.r.shuffle(toks)
+    explicit = []
+    vi, vb = S.iban("DE"), "GENODEM1GLS"
+    for t in sorted(toks[: run.scale(60, 1000)]) + ["IBAN", "BIC", "BBAN"]:
+        for kind, v in (("iban", vi), ("bic", vb)):
+            for base in (t + " " + v, t + v, t + ": " + v, v + " " + t):
+                for var in (base.lower(), base.upper(), base.swapcase(), " ".join(base), base.title()):
+                    if var != base:
+                        explicit.append((kind, base, var))
+    for case in cases + explicit:
+        kind, base = case[0], case[1]
+        if len(case) == 3:
+            var = case[2]
+        else:
+            var = S.decorate(base) if len(base) < 400 else base.replace(" ", "\u2003").swapcase()
         c = common.clean(base)
         if kind == "iban":
             a = real(["iban.new", hx(base), "F", "F"])
@@ -183,6 +200,20 @@ def c01(run):
     for ch in near_whitespace():
         p = r.randrange(len(base) + 1)
         texts.append(base[:p] + ch + base[p:])
+    # every printable ASCII character: as a substitution at every position of a few letter-rich IBANs, and as
+    # an INSERTION (a character that is cleaned away goes unnoticed as a substitution: the text gets short)
+    ascii_printable = [chr(c) for c in range(32, 127)]
+    for cc in ("GB", "MT", "DE"):
+        if cc in S.table:
+            i = S.iban(cc)
+            for p in range(len(i)):
+                for ch in ascii_printable:
+                    texts.append(i[:p] + ch + i[p + 1:])
+            for ch in ascii_printable + ["\u00ad", "\u200b", "\u2013", "\u2212", "\ufeff", "\u00b7"]:
+                if ch.isalnum():
+                    continue
+                for p in sorted({0, 2, 4, len(i) // 2, len(i)}):
+                    texts.append(i[:p] + ch + i[p:])
     for cc in (S.countries if run.tier == "thorough" else r.sample(S.countries, 6)):
         i = S.iban(cc)
         for n in range(0, 41):
@@ -356,11 +387,20 @@ def c04(run):
         texts += [b, S.mutate(b), S.decorate(S.mutate(b))]
     base8, base11 = "GENODEM1", "GENODEM1GLS"
     from streams import CASE_RELATED
-    alph = S.wide if run.tier == "thorough" else r.sample(S.wide, 40) + list("0Aa -") + CASE_RELATED()
+    ascii_printable = [chr(c) for c in range(32, 127)]
+    alph = S.wide if run.tier == "thorough" else \
+        list(dict.fromkeys(r.sample(S.wide, 40) + ascii_printable + CASE_RELATED()))   # ASCII always completely
     for base in (base8, base11, "1234DEWWXXX"):
         for p in range(len(base)):
             for ch in alph:
                 texts.append(base[:p] + ch + base[p + 1:])
+    # insertions (a character that is cleaned away would go unnoticed as a substitution: the text gets short)
+    for base in (base8, base11):
+        for ch in ascii_printable + ["\u00ad", "\u200b", "\u2013", "\u2212", "\ufeff", "\u00b7"]:
+            if ch.isalnum():
+                continue
+            for p in sorted({0, 4, 6, len(base) // 2 + 1, len(base)}):
+                texts.append(base[:p] + ch + base[p:])
     from streams import near_whitespace
     for ch in near_whitespace():
         p = r.randrange(12)
@@ -1097,11 +1137,16 @@ def c07(run):
         named.setdefault(e["bank_code"], []).append(e.get("checksum_algo"))
     for code, ms in sorted(named.items()):
         if code and len(set(ms)) > 1:
-            for m in sorted({m for m in ms if m in methods}):
+            named_here = sorted({m for m in ms if m in methods})
+            unnamed = any(m not in methods for m in ms)     # an entry without (implemented) method accepts all
+            for m in named_here:
                 done = 0
-                for _ in range(4000):
+                for _ in range(6000):
                     acct = "".join(r.choice(DIGITS) for _ in range(10))
-                    if natref.de(m, acct) is False:
+                    if natref.de(m, acct) is not False:
+                        continue
+                    # an account this method rejects and another reading of the same bank code accepts
+                    if unnamed or any(natref.de(o, acct) is True for o in named_here if o != m):
                         b = code + acct
                         i = "DE" + iban_check_digits("DE", b) + b
                         ops2.append(["iban.new", hx(i), "F", "T"])
@@ -1457,6 +1502,29 @@ def c18_live_lookups(run, S):
     """Lookups follow the effective data: entries of every bank file (first, last, a few in between, and
     every entry that lacks one of the usual keys) are found again from an IBAN built around them."""
     r = S.r
+    # what a file's text names must be in its document: no member name twice in one object
+    import glob as _glob
+    import json as _json
+    import schwifty as _pkg
+    for fn in sorted(_glob.glob(os.path.join(os.path.dirname(_pkg.__file__), "*_registry", "*.json"))):
+        found = []
+
+        def hook(pairs, found=found):
+            seen = {}
+            for k, v in pairs:
+                if k in seen:
+                    found.append((k, seen[k], v))
+                seen[k] = v
+            return dict(pairs)
+        try:
+            _json.load(open(fn, encoding="utf-8"), object_pairs_hook=hook)
+        except ValueError:
+            continue
+        for k, first_v, last_v in found[:3]:
+            run.violation("registry file", [os.path.basename(fn), k],
+                          "the file gives member %r twice in one object; json.load keeps only the last" % k,
+                          "every key a file names is in the effective data", "files read with an object_pairs_hook",
+                          kind="config")
     disk = disk_bank_entries()
     if [e for _, e in disk] != [dict(e) for e in registry_get_bank_raw()]:
         run.violation("registry.get('bank')", ["the live package"], "differs from the files on disk composed in "
@@ -2141,7 +2209,7 @@ def registry_fingerprint():
            "outcome is compared with the outcome of the same call as the FIRST call of another fresh child; the "
            "registries are fingerprinted before/after and objects created before the history are re-read; "
            "non-trivial = distinct (history, position) "
-           "; plus revisit histories (X, Y, X on every algorithm object, Y sometimes failing) judged by the published rule, and one BBAN text under two countries (accessors, bank lookup, national check)",
+           "; plus revisit histories (X, Y, X on every algorithm object, Y sometimes failing) judged by the published rule, and one BBAN text under two countries (accessors, bank lookup, national check); an existing object is re-read after being handed to every kind of call (own and other country, incl. the table countries pycountry does not know)",
       note="generic history theorem and its German-scratch instance proved; absence of hidden state in "
            "CPython/third-party modules and immutability of the registries are checked dynamically")
 def c15(run):
@@ -2286,6 +2354,23 @@ def c15(run):
                                       "two countries)", kind="history", history=grp_ops[:pos + 1],
                                       op=grp_ops[j], expected_line=want)
                         break
+    # objects that exist are not changed by later calls - not even by calls that are handed the object itself
+    import pycountry as _pc
+    special = [cc for cc in S.countries if _pc.countries.get(alpha_2=cc) is None]
+    bases = [S.iban(cc) for cc in dict.fromkeys(special + ["DE", "GB", "NO", "PL", "SI", "FR", "MC"] +
+                                                  r.sample(S.countries, run.scale(6, 60)))]
+    pops = [["obj.persist", hx(i), hx(o)] for i in bases for o in dict.fromkeys(special + ["GB", "DE", "ZZ"])
+            if o != i[:2]]
+    pouts = sched.in_child(lambda: [real(op) for op in pops])
+    for op, out in zip(pops, pouts or []):
+        run.count(1, key=("persist",) + tuple(op), tag="object re-read after being handed to other calls")
+        if out != "ok SAME":
+            run.violation("an existing IBAN object re-read after calls that were handed it",
+                          [unhx(op[1]), "other country " + unhx(op[2])], out[:300], "ok SAME",
+                          "observation before / after (constructors of all classes under its own and another "
+                          "country, from_bban, copies, comparisons, validation, lookups)", kind="history", op=op,
+                          expected_line="ok SAME")
+            break
     run.samples.append({"history": [readable_op(o) for o in pool[:6]]})
 
 
@@ -2387,9 +2472,19 @@ def c14(run):
     # first lookups in a fresh process
     pairs.append([["bic.from_bank_code", hx("DE"), hx("43060967")], ["bban.bank", hx("DE"), hx("370400440532013000")]])
     pairs.append([["iban.new", hx("DE65100307000100000111"), "F", "T"], ["bic.candidates", hx("DE"), hx("10030700")]])
+    # a call that FAILS (unknown bank code, unknown country) next to an ordinary call: whatever the failing
+    # call leaves behind (a lock, a half-built table) must not keep the other from returning
+    pairs.append([["bic.from_bank_code", hx("DE"), hx("00000000")], ["iban.new", hx("DE65100307000100000111"), "F", "T"]])
+    pairs.append([["iban.new", hx("ZZ89370400440532013000"), "F", "F"], ["bic.from_bank_code", hx("DE"), hx("43060967")]])
+    # two generations at once (same country with different values, and two countries)
+    gen_pairs = [[["iban.generate", hx("DE"), hx("37040044"), hx("532013000"), hx("")],
+                  ["iban.generate", hx("DE"), hx("43060967"), hx("1234567890"), hx("")]],
+                 [["iban.generate", hx("DE"), hx("37040044"), hx("532013000"), hx("")],
+                  ["iban.generate", hx("ES"), hx("2100"), hx("0200051332"), hx("0418")]]]
     if run.tier != "thorough":
         nd = 2 * len(directed)
         pairs = pairs[:nd] + pairs[nd:: 2] + pairs[-2:]
+    pairs += gen_pairs
     # two lookups of the SAME pair at once, for the pairs with the most entries (the list of entries of a
     # pair is shared by all callers)
     multi = {}
